@@ -134,13 +134,23 @@ CHECKS = {
         "assumptions": E1_ASSUME + ["only combinations the published format allows are emitted (compression only from version 3, summary offset 0 only in version 1, sorted chromosome keys)",
                                     "files that are not well-formed (reader robustness) are outside the statement"],
     },
+    "C11": {
+        "level": "model_checking",
+        "technique": "deviation-bounded exhaustive schedule exploration of the real writer pipeline on a current-thread runtime through cfg-guarded hook points (stateless, CHESS-style iterative bounding), composed with C12's loom exploration of the staging buffer; plus a labelled sampling sweep over real runtimes",
+        "rule": "layer 1: for each scenario (file type x source x pass x chromosomes/slots/channel/buffering) the real write runs on a current-thread tokio runtime; the hook points at every task start and hand-off ask the explorer whether to proceed or yield; ALL executions with at most `bound` yields are run (depth-first over deviation vectors, each execution deterministic and replayed from scratch); destination bytes must equal the 0-deviation run, no error, no hang; every 50th schedule is run twice and must reproduce. states = distinct hook-trace prefixes, transitions = hook events executed, traces validated = executions (each is an execution of the implementation). layer 3 (supplementary, sampling over OS schedules): thread counts x runtimes x channel sizes x buffering x sources x passes, repeated, bytes identical. The staging buffer's access-granularity interleavings are C12's",
+        "require": ["scenarios", "executions", "scenarios_with_2+_traces", "schedules_replayed_twice", "sweep_runs"],
+        "mc_counters": {"states": "distinct_trace_prefixes", "transitions": "hook_events", "traces": "executions"},
+        "assumptions": ["tokio's current-thread scheduler is deterministic given which awaits return Pending",
+                        "preemption inside a task between two hook points (only possible on a multi-thread runtime) is not explored by layer 1; layer 3 samples it",
+                        "the multi-threaded converters (bigwigtobedgraph / bigbedtobed) are covered by the command-line checks, not here"],
+    },
 }
 
 HOOKS = {
     "guard": "--cfg bigtools_verif",
     "enable": "RUSTFLAGS=\"--cfg bigtools_verif\" (set in /verif/harness/.cargo/config.toml, so every harness build of /repo/bigtools has it on)",
     "baseline_off_cmd": "cd /repo && cargo test --workspace --no-fail-fast --offline",
-    "source_commits": [],
+    "source_commits": ["69a033e"],
     "add_only": True,
 }
 
